@@ -3,6 +3,7 @@
 parts_of() {
   case "$1" in
     C09|C16) echo "sched:cmd/keymasterd:$1" ;;
+    C05) echo "seq:cmd/keymasterd:C05 sched:cmd/keymasterd:C05S" ;;
     C11) echo "seq:cmd/keymasterd:C11 sched:cmd/keymasterd:C11S" ;;
     C14) echo "seq:cmd/keymasterd:C14 sched:cmd/keymasterd:C14S" ;;
     C16RACE) echo "seq:cmd/keymasterd:C16RACE" ;;
